@@ -173,21 +173,62 @@ fn cst_case(src: &str) -> serde_json::Value {
     }
 }
 
-fn mode_cst() {
+/// watchdog: prints `T <id>` and exits with code 3 when the running case exceeds the limit
+fn watchdog(limit_s: u64) -> (Arc<AtomicU64>, Arc<AtomicU64>) {
+    let started = Arc::new(AtomicU64::new(0)); // ms since epoch of the running case, 0 = idle
+    let cur_id = Arc::new(AtomicU64::new(0));
+    {
+        let started = started.clone();
+        let cur_id = cur_id.clone();
+        std::thread::spawn(move || loop {
+            std::thread::sleep(std::time::Duration::from_millis(200));
+            let s = started.load(Ordering::SeqCst);
+            if s != 0 && now_ms() > s + limit_s * 1000 {
+                // the worker thread never holds the stdout lock while computing
+                let msg = format!("\nT {}\n", cur_id.load(Ordering::SeqCst));
+                let mut o = io::stdout();
+                let _ = o.write_all(msg.as_bytes());
+                let _ = o.flush();
+                std::process::exit(3);
+            }
+        });
+    }
+    (started, cur_id)
+}
+
+fn now_ms() -> u64 {
+    std::time::SystemTime::now().duration_since(std::time::UNIX_EPOCH).unwrap().as_millis() as u64
+}
+
+fn mode_cst(limit_s: u64, sync: bool) {
+    let (started, cur_id) = watchdog(limit_s);
     let stdin = io::stdin();
-    let stdout = io::stdout();
-    let mut w = io::BufWriter::with_capacity(1 << 16, stdout.lock());
+    let mut buf = String::new();
+    let mut n: u64 = 0;
     for l in stdin.lock().lines() {
         let Ok(l) = l else { break };
+        cur_id.store(n, Ordering::SeqCst);
+        started.store(now_ms(), Ordering::SeqCst);
         let v = match unhex(&l) {
             Some(src) => cst_case(&src),
             None => json!({"badinput": true}),
         };
-        if writeln!(w, "{v}").is_err() {
-            break;
+        started.store(0, Ordering::SeqCst);
+        n += 1;
+        buf.push_str(&v.to_string());
+        buf.push('\n');
+        if sync || buf.len() > (1 << 15) {
+            let mut o = io::stdout().lock();
+            if o.write_all(buf.as_bytes()).is_err() {
+                return;
+            }
+            let _ = o.flush();
+            buf.clear();
         }
     }
-    let _ = w.flush();
+    let mut o = io::stdout().lock();
+    let _ = o.write_all(buf.as_bytes());
+    let _ = o.flush();
 }
 
 /// (number of labels, number of labels whose span is not inside the text on char boundaries, first bad)
@@ -236,8 +277,16 @@ fn stage_result<T>(
     }
 }
 
+/// `S <stage>` before each entry point, so that the supervisor knows which call killed the process
+fn mark(stage: &str) {
+    let mut o = io::stdout().lock();
+    let _ = writeln!(o, "S {stage}");
+    let _ = o.flush();
+}
+
 fn oracle_case(src: &str, ctx: &ExecContext) -> serde_json::Value {
     let mut st = Vec::new();
+    mark("tokenize");
     // 1 tokenize
     st.push(match guarded(|| parser::tokenize(src)) {
         Err(m) => json!(["tokenize", "P", 0, 0, m, ""]),
@@ -255,6 +304,7 @@ fn oracle_case(src: &str, ctx: &ExecContext) -> serde_json::Value {
     // 2 parse_to_expr, 3 typecheck exactly as analysis.rs analyze_source
     let compiler = ctx.get_compiler().unwrap();
     let builtin_types = compiler.get_ext_typeinfos();
+    mark("parse_to_expr");
     let parsed = guarded(|| parser::parse_to_expr(src, Some(std::path::PathBuf::from("file:///verif.mmm"))));
     match parsed {
         Err(m) => {
@@ -264,6 +314,7 @@ fn oracle_case(src: &str, ctx: &ExecContext) -> serde_json::Value {
         Ok((ast, module_info, errs)) => {
             let (n, bad, first) = span_check(src, &errs);
             st.push(json!(["parse_to_expr", if errs.is_empty() { "V" } else { "D" }, n, bad, "", first]));
+            mark("typecheck");
             let r = guarded(|| {
                 let ast = if ast.has_staging_constructs() { ast.wrap_to_staged_expr() } else { ast };
                 let (_, _, typeerrs) = mirgen::typecheck_with_module_info(ast, &builtin_types, None, module_info);
@@ -279,32 +330,15 @@ fn oracle_case(src: &str, ctx: &ExecContext) -> serde_json::Value {
         }
     }
     // 4, 5 the compile entry points of the CLI
+    mark("emit_bytecode");
     st.push(stage_result("emit_bytecode", src, guarded(|| compiler.emit_bytecode(src))));
+    mark("emit_wasm");
     st.push(stage_result("emit_wasm", src, guarded(|| compiler.emit_wasm(src))));
     json!({ "st": st })
 }
 
 fn mode_oracle(limit_s: u64) {
-    let started = Arc::new(AtomicU64::new(0)); // ms since epoch of the running case, 0 = idle
-    let cur_id = Arc::new(AtomicU64::new(0));
-    {
-        let started = started.clone();
-        let cur_id = cur_id.clone();
-        std::thread::spawn(move || loop {
-            std::thread::sleep(std::time::Duration::from_millis(200));
-            let s = started.load(Ordering::SeqCst);
-            if s != 0 {
-                let now = std::time::SystemTime::now().duration_since(std::time::UNIX_EPOCH).unwrap().as_millis() as u64;
-                if now > s + limit_s * 1000 {
-                    // stdout may be locked by the worker thread: write to fd 1 directly
-                    let msg = format!("\nT {}\n", cur_id.load(Ordering::SeqCst));
-                    let _ = io::stderr().write_all(msg.as_bytes());
-                    unsafe_write_stdout(&msg);
-                    std::process::exit(3);
-                }
-            }
-        });
-    }
+    let (started, cur_id) = watchdog(limit_s);
     let ctx = new_exec_ctx();
     let stdin = io::stdin();
     for l in stdin.lock().lines() {
@@ -322,8 +356,7 @@ fn mode_oracle(limit_s: u64) {
             let _ = writeln!(o, "B {id}");
             let _ = o.flush();
         }
-        let now = std::time::SystemTime::now().duration_since(std::time::UNIX_EPOCH).unwrap().as_millis() as u64;
-        started.store(now, Ordering::SeqCst);
+        started.store(now_ms(), Ordering::SeqCst);
         let v = oracle_case(&src, &ctx);
         started.store(0, Ordering::SeqCst);
         let mut o = io::stdout().lock();
@@ -332,24 +365,18 @@ fn mode_oracle(limit_s: u64) {
     }
 }
 
-fn unsafe_write_stdout(msg: &str) {
-    // best effort: a second handle on fd 1 (the worker thread never holds the stdout lock while computing)
-    let mut o = io::stdout();
-    let _ = o.write_all(msg.as_bytes());
-    let _ = o.flush();
-}
-
 fn main() {
     record_panics();
     let args: Vec<String> = std::env::args().collect();
     let mode = args.get(1).map(|s| s.as_str()).unwrap_or("cst").to_string();
     let limit: u64 = args.get(2).and_then(|s| s.parse().ok()).unwrap_or(10);
     let stack_mib: usize = args.get(3).and_then(|s| s.parse().ok()).unwrap_or(if mode == "cst" { 512 } else { 8 });
+    let sync = args.get(4).is_some_and(|s| s == "sync");
     let h = std::thread::Builder::new()
         .stack_size(stack_mib << 20)
         .spawn(move || {
             if mode == "cst" {
-                mode_cst()
+                mode_cst(limit, sync)
             } else {
                 mode_oracle(limit)
             }
